@@ -229,7 +229,12 @@ func (v *FnV) sp(st *State, e *SExpr, sc *Scope) Value {
 
 func (v *FnV) specLoad(st *State, t types.Type, ref string) string {
 	h := st.heap(heapName(t), "(Array Int "+v.c.sortOf(t)+")")
-	return sSelect(h, ref)
+	val := sSelect(h, ref)
+	if !st.quiet {
+		// type invariants of loaded values (lengths are non-negative, ints are in range, ...)
+		st.assume(v.c.rangeOf(t, val, st.alloc))
+	}
+	return val
 }
 
 func (v *FnV) unify(st *State, a, b Value) (Value, Value) {
@@ -481,6 +486,26 @@ func (v *FnV) specIndex(st *State, base, idx Value) Value {
 func (v *FnV) spCall(st *State, e *SExpr, sc *Scope) Value {
 	fn := e.Args[0]
 	args := e.Args[1:]
+	if fn.Op == "field" {
+		// dotted name: pkg.Type.Method or Type.Method
+		var parts []string
+		cur := fn
+		for cur.Op == "field" {
+			parts = append([]string{cur.Name}, parts...)
+			cur = cur.Args[0]
+		}
+		if cur.Op == "ident" {
+			parts = append([]string{cur.Name}, parts...)
+			var avs []Value
+			for _, a := range args {
+				avs = append(avs, v.sp(st, a, sc))
+			}
+			if val, ok := v.functionalSpecCall(st, strings.Join(parts, "."), avs, sc); ok {
+				return val
+			}
+		}
+		sfail("unknown function %s", fn.String())
+	}
 	if fn.Op != "ident" {
 		sfail("only named spec functions can be called")
 	}
@@ -571,12 +596,16 @@ func (v *FnV) spCall(st *State, e *SExpr, sc *Scope) Value {
 			return Value{T: nil, S: sx("bv2nat", a.S)}
 		}
 		return Value{T: nil, S: a.S}
-	case "runeat":
+	case "runeat", "sizeat":
 		v.c.utf8Fns()
-		return Value{T: tRune, S: sx("dr", arg(0).S, arg(1).S)}
-	case "sizeat":
-		v.c.utf8Fns()
-		return Value{T: tInt, S: sx("dz", arg(0).S, arg(1).S)}
+		a0, a1 := arg(0), arg(1)
+		if !st.quiet {
+			st.assume(v.c.utf8Facts(a0.S, a1.S))
+		}
+		if name == "runeat" {
+			return Value{T: tRune, S: sx("dr", a0.S, a1.S)}
+		}
+		return Value{T: tInt, S: sx("dz", a0.S, a1.S)}
 	case "lastrune":
 		v.c.utf8Fns()
 		return Value{T: tRune, S: sx("lr", arg(0).S, arg(1).S)}
@@ -620,6 +649,15 @@ func (v *FnV) spCall(st *State, e *SExpr, sc *Scope) Value {
 			avs = append(avs, arg(i))
 		}
 		return v.applySpecFn(st, sf, avs, sc)
+	}
+	{
+		var avs []Value
+		for i := range args {
+			avs = append(avs, arg(i))
+		}
+		if val, ok := v.functionalSpecCall(st, name, avs, sc); ok {
+			return val
+		}
 	}
 	sfail("unknown spec function %s", name)
 	return Value{}
